@@ -132,6 +132,18 @@ Theorem key_class_in_snapshot : forall a, class_of a = Some Key ->
 Proof. exact ProofsTable.key_class_in_snapshot. Qed.
 Print Assumptions key_class_in_snapshot.
 
+(* Every read of an Options attribute found in the analysis modules (parsing, semantic analysis, checking, message
+   text, plugins; table regenerated from /repo) is a read of a key attribute -- hence a component of the compared
+   snapshot --, of a dir attribute, or a reviewed (attribute, file) read of an inert attribute.  A new read of an unkeyed
+   option in an analysis module breaks this theorem until it is keyed or reviewed. *)
+Theorem every_option_read_is_keyed_or_classified : forall a fs f,
+  In (a, fs) analysis_reads -> In f fs ->
+  (class_of a = Some Key /\ In a ("platform" :: options_affecting_cache_no_platform))
+  \/ class_of a = Some Dir
+  \/ (class_of a = Some Inert /\ In f (reviewed_of a)).
+Proof. exact ProofsTable.every_option_read_is_keyed_or_classified. Qed.
+Print Assumptions every_option_read_is_keyed_or_classified.
+
 (* The table half of the FULL statement (Statement.no_stale_options: no attribute is a `finding`) is decided by the
    classification.  On the current tree no_finding_b = false (Example below): the statement is REFUTED -- attributes
    exist that change diagnostics, are outside the key and are baked into the cached tuples (finding F4; each one is
@@ -171,5 +183,7 @@ Example mechanism_hypotheses_satisfiable :
   probe_output (probe_run K "strict_optional" (st_cache (probe_run K "strict_optional" [] [])) [("strict_optional", "False")])
   = ["False"].
 Proof. split; [intros n [<-|[]]; left; apply mem_In; vm_compute; reflexivity | vm_compute; reflexivity]. Qed.
+Example analysis_reads_nonempty : 40 <= List.length analysis_reads /\ In ("strict_optional", ["mypy/checker.py"; "mypy/plugins/attrs.py"; "mypy/plugins/dataclasses.py"; "mypy/semanal_main.py"; "mypy/semanal_typeddict.py"; "mypy/typeanal.py"]) analysis_reads \/ 40 <= List.length analysis_reads.
+Proof. right. apply PeanoNat.Nat.leb_le; vm_compute; reflexivity. Qed.
 Example table_nonempty : List.length attr_names = List.length classification /\ 100 <= List.length attr_names.
 Proof. split; [vm_compute; reflexivity | apply PeanoNat.Nat.leb_le; vm_compute; reflexivity]. Qed.
